@@ -1155,7 +1155,7 @@ func init() {
 		section{"mux-linearizability", tiered(300, 10000), c14Linearizable},
 	)
 	core.Register(&core.Monitor{
-		ID: "C14", Level: "exploration", Plan: plan, Run: run, Race: true, Terminates: true, MaxParallel: 16,
+		ID: "C14", Level: "exploration", Plan: plan, Run: run, Race: true, Terminates: true, MaxParallel: 16, CaseTimeout: 75e9,
 		Rule: "admission: real Server over simulated datagram and stream transports, one packet at a time with hook-signalled quiescence: all opcode x QR combinations, counts from {0,1,2,3,65535}^4, model-well-formed queries of every type, mutated/truncated hostile packets; stream frames delivered whole, with the length prefix split, octet by octet; 2..8 messages pipelined on one connection in arbitrary segments; a datagram whose read completes while Shutdown sets the deadline; transient non-timeout failures (net.Error, Temporary) reported by Accept / ReadFrom between messages, singly and twice in a row; " +
 			"oracle = reference accept policy + exactly-one-of {handler once, reject reply, ignore, invalid callback(+FORMERR)} + reply shape; routing: random pattern sets over related names (escaped dots, case variants, relative spellings, root) x query names/types against a wire-label longest-suffix reference (DS: any registered strict ancestor); " +
 			"concurrent Handle/HandleRemove/ServeDNS histories (4 threads x 8 ops) checked for linearizability with porcupine; race detector on; non-trivial = distinct packet/transport, routing case or history",
